@@ -86,3 +86,8 @@ CHECKS.update({
     "C20": ("6/C20", "2-4 tasks, one operation each from {set, set_state (whole-state replace), clear, edit_state blocks that read, suspend at 1-2 harness gates and write} on colliding keys, started at explorer-chosen points; every interleaving of starts and gate releases executed on the real InMemoryStateStore and SqliteStateStore (DB file) on the virtual loop; final state must equal some permutation of the operations applied atomically to a plain dict (brute force).",
             "All interleavings of each program are explored (no deviation bound). Fix 6ffe178 repaired the unlocked SqliteStateStore.set_state this check found.", SCHED_TECH),
 })
+
+CHECKS.update({
+    "C21": ("6/C21", "Every sequence (length <=2(3) over all 25 operations; <=4(5) inside the tick family incl. a paged tick stream left open across appends; <=3(4) over state-store x other-family operations) of handler / event / tick / state-store operations executed on a SqliteWorkflowStore with single_connection=True and on one with per-call connections (two real DB files); results and raised exceptions compared after every step.",
+            "Differential oracle: the per-call store is the reference the property names. _TICK_PAGE_SIZE set to 2 by the harness. Fix cbedf65 repaired the closed shared connection this check found.", ENUM_TECH),
+})
